@@ -17,7 +17,7 @@ RULE = (
 )
 ASSUMPTIONS = [
     "exact-boundary policy: publish times are whole milliseconds, so an update exactly latency (+ bet delay) after the request is not 'more than' it and must not execute the request; only where the delay is a float sum on which exact decimal arithmetic and plain float arithmetic disagree either verdict is accepted",
-    "a quarter of the scenarios run under a foreign host time zone (scenario key tz)",
+    "a quarter of the scenarios run under a foreign host time zone (scenario key tz); a fifth run with config.async_place_orders = True (the simulated delays must not depend on it)",
     "fragment time stamps of placement fills are the publish time of the book matched against (previous update); only 'not from the future' is demanded of them",
 ]
 COMPONENTS = common.COMPONENTS_A
@@ -48,6 +48,11 @@ def generate(rng, i, tier):
         t0=common.marketgen.T0_MS + rng.randint(0, 100000) if grouped else None,
     )
     sc["dyadic"] = dyadic
+    import random
+
+    side = random.Random("c07-cfg|%d" % rng.getrandbits(32))
+    if side.random() < 0.2:
+        sc["cfg"]["async"] = True  # config.async_place_orders: a live-trading switch, the simulated delays must not depend on it
     if grouped:
         # some requests target another market of the event (they fall between two updates of that market)
         n = len(sc["markets"])
